@@ -525,6 +525,27 @@ func drawSnippet(t *rapid.T, name string, e genEnv) []Op {
 				ops = append(ops, Op{K: "login", B: b, A: e.nAcct, Src: "pw", SA: e.nAcct})
 			}
 		}
+	case "rec2fa":
+		// complete a 2FA login with a recovery code, then replay the same code
+		if !c.Has("auth") || (!c.HasSetup("totp") && !c.HasSetup("sms")) {
+			return nil
+		}
+		page := "totpvalidate"
+		if !c.HasSetup("totp") || (c.HasSetup("sms") && chance(t, "smspage", 50)) {
+			page = "smsvalidate"
+		}
+		n := rapid.IntRange(0, 2).Draw(t, "recn")
+		ops = append(ops, login, Op{K: page, B: b, A: a, Src: "rec", SA: a, SN: n, F: true})
+		if chance(t, "replay", 70) {
+			ops = append(ops, Op{K: "newsess", B: b}, login, Op{K: page, B: b, A: a, Src: "rec", SA: a, SN: n, F: true})
+		}
+		if chance(t, "smsreplay", 40) && c.HasSetup("sms") {
+			ops = append(ops, Op{K: "newsess", B: b}, login, Op{K: "smsvalidate", B: b, A: a, Src: "smssess"}, Op{K: "newsess", B: b}, Op{K: "advance", N: 12}, login,
+				Op{K: "smsvalidate", B: b, A: a, Src: "sms", SA: a, SN: 1})
+		}
+		if chance(t, "totpreplay", 40) && c.HasSetup("totp") {
+			ops = append(ops, Op{K: "newsess", B: b}, login, Op{K: "totpvalidate", B: b, A: a, Src: "totp", SA: a}, Op{K: "newsess", B: b}, login, Op{K: "totpvalidate", B: b, A: a, Src: "totp", SA: a})
+		}
 	case "logoutfrom":
 		// reach a session state, then log out
 		for i := rapid.IntRange(0, 2).Draw(t, "nset"); i > 0; i-- {
